@@ -101,6 +101,27 @@ class Ctx:
                 return n
         return prog.fold(_ast.fix_missing_locations(T().visit(rec(e))), m, c)
 
+    def prop_inline(self, fn, e, depth: int = 2):
+        """`self.X` / `cls.X` where X is a property of fn's class (MRO) whose body is a single `return <expr>` is replaced by <expr>."""
+        import ast as _ast
+        from .core import astutil as _A
+        if fn.cls is None or depth <= 0:
+            return e
+        prog = self.prog
+        cls = fn.cls
+
+        class T(_ast.NodeTransformer):
+            def visit_Attribute(s2, n):  # noqa: N802,N805
+                s2.generic_visit(n)
+                if isinstance(n.value, _ast.Name) and n.value.id == "self" and isinstance(n.ctx, _ast.Load):
+                    m = prog.find_method(cls, n.attr)
+                    if m is not None and any(isinstance(d, _ast.Name) and d.id == "property" for d in m.node.decorator_list):
+                        body = _A.body_of(m.node)
+                        if len(body) == 1 and isinstance(body[0], _ast.Return) and body[0].value is not None:
+                            return _A.clone(body[0].value)
+                return n
+        return T().visit(_A.clone(e))
+
     def fold_sym(self, fn, mapping=None):
         """A `sym` function for the evaluator: values for the expressions named in `mapping` (by normalised text), and the folded
         value of named constants / calcsize(...) in the context of function `fn` (so `16`, `Cls.SIZE` and `calcsize('<4L')` agree)."""
